@@ -460,6 +460,43 @@ def array_configs(name, tf):
   return res
 
 
+SCALAR_FORMS = ("np.float32", "np.float64", "np.int64", "np.int32", "0-d ndarray")
+
+
+def scalar_form_configs(name, defaults, rng_index):
+  """every numeric option of the class's lattice once as a numpy scalar / 0-d array instead of a
+  Python number (same value => same text, same rebuilt options); the form rotates with the
+  option so that one quick run sees every form.  Eager tensors are NOT generated: str(tf.constant(4))
+  is 'tf.Tensor(4, shape=(), dtype=int32)' for every option of every class (notes/C10.md)."""
+  out = []
+  lat = L.LATTICE[name]
+  ctx = dict(lat["contexts"][-1])
+  i = rng_index
+  for o, vals in lat["options"].items():
+    if o in NOT_SWEPT or o in ctx:
+      continue
+    for v in vals[:1]:
+      if isinstance(v, bool) or not isinstance(v, (int, float)):
+        continue
+      if isinstance(v, float) and float(np.float32(v)) != v:
+        continue
+      for j in range(2):
+        form = SCALAR_FORMS[(i + j * 2) % len(SCALAR_FORMS)]
+        if isinstance(v, float) and form in ("np.int64", "np.int32"):
+          form = "np.float32"
+        if isinstance(v, int) and form in ("np.float32", "np.float64"):
+          form = "np.int64"
+        fv = {"np.float32": np.float32, "np.float64": np.float64, "np.int64": np.int64,
+              "np.int32": np.int32, "0-d ndarray": np.array}[form](v)
+        real = dict(ctx)
+        real[o] = fv
+        plain = dict(ctx)
+        plain[o] = v
+        out.append((real, plain, {o: form}))
+      i += 1
+  return out
+
+
 def list_configs(name):
   """list-valued axis options of the classes whose __str__ prints them with str(x) (binary, which
   prints item by item, has them in the C09 lattice already)"""
@@ -933,6 +970,9 @@ def run(run: core.Run, tier: str):
     todo = [(kind, kw, kw, None) for kind, kw in c10_configs(name, tier, rng, cls, extras, tf.constant(xs_all[0]))]
     todo += [("array", real, plain, forms) for real, plain, forms in array_configs(name, tf)]
     todo += [("listopt", kw, kw, None) for kw in list_configs(name) if legal(cls, kw, tf.constant(xs_all[0]))]
+    todo += [("scalarform", real, plain, forms)
+             for real, plain, forms in scalar_form_configs(name, defaults, names.index(name))
+             if legal(cls, plain, tf.constant(xs_all[0]))]
     for kind, kw, kw_plain, forms in todo:
       if "post_training_scale" in kw:
         continue
@@ -1032,6 +1072,14 @@ def run(run: core.Run, tier: str):
       diff = [n for n in pnames if a0[n] != a2[n]]
       rec["diff_fields"] = diff
       rec["kinds"] = sorted(kinds)
+      # history on one object: the quantizer has now been called on tensors of two ranks, in both
+      # phases, with gradients — its text must still be the text it printed when fresh
+      try:
+        s_after = str(q)
+      except Exception as e:  # pylint: disable=broad-except
+        s_after = "<raises %s>" % L.err_tag(e)
+      if s_after != s:
+        rec["str_after_use"] = s_after
       if levels:
         run.count("training_fixed_draws_observed")
       if kinds and len(diff) > 1:
@@ -1084,6 +1132,12 @@ def run(run: core.Run, tier: str):
                   {"kw": line["kw"], "forms": rec.get("forms"), "str": rec["str"]["ok"], "options": opts,
                    "replay": "get_quantizer(str(%s(**kw)))" % name}, mirrored=mirrored)
       continue
+    if "str_after_use" in rec:
+      run.count("str_changed_after_use")
+      run.violate("str_stable_after_use", {"class": name},
+                  {"class": name, "kw": line["kw"], "forms": rec.get("forms"), "str_fresh": rec["str"]["ok"],
+                   "str_after_calls": rec["str_after_use"],
+                   "replay": "q=%s(**kw); s=str(q); q(x) in both phases; str(q) != s" % name}, mirrored=False)
     # a printed text with a second "(" makes safe_eval drop EVERY argument: one violation for
     # the case instead of one per option that fell back to its default
     dropped = rec["str"]["ok"].count("(") != 1
